@@ -7,14 +7,15 @@ def instances(tier):
     q = tier == 'quick'
     out = []
     for n in ((0, 1, 3, 6) if q else (0, 1, 2, 3, 6, 10)):
-        for v in (0, 1, 2, 3):
-            out.append({'entry': 'h_bytes', 'params': [n, v], 'bound': 'every byte array of length %d, write variant %d (put / write+append+reopen / stream operators / one object queried, reopened, closed, queried)' % (n, v)})
+        for v in (0, 1, 2, 3, 4):
+            out.append({'entry': 'h_bytes', 'params': [n, v], 'bound': 'every byte array of length %d, write variant %d (put / write+append+reopen / stream operators / one object queried, reopened, closed, queried / queried while open for writing)' % (n, v)})
     for k, ns, tail in ([(0, 0, 0), (0, 1, 0), (0, 2, 0), (0, 3, 1), (1, 3, 0), (251, 3, 1), (252, 3, 1), (253, 3, 0), (253, 3, 1), (254, 3, 1), (255, 2, 1), (256, 2, 0), (507, 3, 1), (508, 3, 1), (509, 2, 1)] if q else
                         [(0, 0, 0), (0, 1, 0), (0, 2, 0), (0, 3, 0), (0, 4, 1), (1, 4, 0), (250, 4, 1), (251, 4, 1), (252, 4, 1), (253, 4, 0), (253, 4, 1), (254, 4, 1), (255, 3, 1), (256, 3, 0), (506, 4, 1), (507, 4, 1), (508, 4, 1), (509, 3, 1), (510, 3, 1)]):
         out.append({'entry': 'h_lines', 'params': [k, ns, tail], 'bound': 'text = %d filler chars + every %d NUL-free bytes%s (LF, CRLF, lone CR, no final newline; 254/255-char fgets chunk edge)' % (k, ns, ' + "\\nz"' if tail else '')})
     for k in ((0, 1, 2) if q else (0, 1, 2, 3)):
         for enc in (0, 1, 2):
             out.append({'entry': 'h_bom', 'params': [k, enc], 'bound': 'every sequence of %d scalar value(s) (no CR) in %s with byte-order mark' % (k, ('UTF-8', 'UTF-16LE', 'UTF-16BE')[enc])})
+    out.append({'entry': 'h_nobom', 'params': [], 'bound': 'every 3 NUL-free bytes that are not a byte-order mark, followed by "xy"'})
     return out
 
 
